@@ -151,9 +151,10 @@ SIGNER_KINDS = ['none', 'null', 'digest', 'hmac', 'rsa', 'ecdsa', 'ed25519']
 KEY_NAME = '/k/KEY/1'
 
 
-def make_signer(eng, kind, for_interest=False, rmin=0, key_ident='k', rmax=None):
+def make_signer(eng, kind, for_interest=False, rmin=0, key_ident='k', rmax=None, key_name=None):
     """returns (signer, info) ; for 'ecdsa' the real signature length is a solver variable r"""
     from ndn import security as sec
+    KN = KEY_NAME if key_name is None else key_name
     if kind == 'none':
         return None
     if kind == 'null':
@@ -161,18 +162,18 @@ def make_signer(eng, kind, for_interest=False, rmin=0, key_ident='k', rmax=None)
     if kind == 'digest':
         return sec.DigestSha256Signer(for_interest)
     if kind == 'hmac':
-        return sec.HmacSha256Signer(KEY_NAME, b'hmac-key-' + key_ident.encode())
+        return sec.HmacSha256Signer(KN, b'hmac-key-' + key_ident.encode())
     if kind == 'rsa':
-        return sec.Sha256WithRsaSigner(KEY_NAME, crypto.make_key('rsa', key_ident))
+        return sec.Sha256WithRsaSigner(KN, crypto.make_key('rsa', key_ident))
     if kind in ECDSA_CURVES:
-        s = sec.Sha256WithEcdsaSigner(KEY_NAME, crypto.make_key('ecc', key_ident, ECDSA_CURVES[kind]))
+        s = sec.Sha256WithEcdsaSigner(KN, crypto.make_key('ecc', key_ident, ECDSA_CURVES[kind]))
 
         def sig_len(k, mx):
             return eng.int('r', rmin, mx if rmax is None else min(mx, rmax))
         crypto.SIG_LEN = sig_len
         return s
     if kind == 'ed25519':
-        return sec.Ed25519Signer(KEY_NAME, crypto.make_key('ed', key_ident))
+        return sec.Ed25519Signer(KN, crypto.make_key('ed', key_ident))
     raise AssertionError(kind)
 
 
